@@ -306,3 +306,193 @@ def items_C08(tier, seed, P):
 
 
 PROPS['C08'] = dict(items=items_C08, bounds=BOUNDS_GRAPH, outside=OUTSIDE, vacuity=vac_paths(), replay_oracles=['C08'])
+
+
+# ------------------------------------------------------------------ unit lemmas (counter generalisation, sentinels)
+def _viol(res, sc, prop, clause, detail, extra=None, item=None):
+    res['violations'].append(dict(prop=prop, clause=clause, detail=detail, model=sc.model_values(extra) or {}, script=sc.script, layout=None,
+                                  name=res['name'], decisions=list(sc.E.decisions), op_index=sc.op_index, stack=[], trace=sc.trace, tags=['lemma'],
+                                  subject=None, rec_same={}, opts=None))
+    res['outcomes']['violation'] = res['outcomes'].get('violation', 0) + 1
+
+
+def lemma_items(prop, which):
+    import z3
+    from values import MASK, bv
+    items = []
+
+    def mk(name, ops, post, opts=None):
+        o = dict(abort_ok=True, panics_ok=True)
+        o.update(opts or {})
+        items.append(dict(prop=prop, name='lemma:' + name, script={'ops': ops}, sym=True, oracles=set(), opts=o, layouts=[None],
+                          post_path=post, tags=['lemma']))
+
+    if 'clone' in which:
+        def post(sc, out, res):
+            s = sc.symvars['s']
+            bad = z3.Or(s == 0, s == MASK, s == MASK - 1)
+            if out[0] == 'abort':
+                if sc.E.check(z3.Not(bad)):
+                    _viol(res, sc, prop, 'lemma-clone-abort', 'Rc::clone aborts for a counter value outside {0, MAX-1, MAX}', z3.Not(bad))
+            elif out[0] == 'ok':
+                if sc.E.check(bad):
+                    _viol(res, sc, 'C16' if prop == 'C16' else prop, 'lemma-clone-sentinel', 'Rc::clone returns a handle although the strong counter is 0 / MAX-1 / MAX (dead or saturated)', bad)
+                ns = sc.strong(0)
+                if sc.E.check(bv(ns) != s + 1):
+                    _viol(res, sc, prop, 'lemma-clone-adds-one', 'Rc::clone does not add exactly one to the strong counter', bv(ns) != s + 1)
+                if sc.handles['c']['obj'] != 0:
+                    _viol(res, sc, prop, 'lemma-clone-identity', 'clone points to another allocation')
+            res['extra'].setdefault('lemma_paths', {}).setdefault('clone', []).append(out[0])
+        mk('clone', [{'op': 'new', 'obj': 0, 'as': 'h'}, {'op': 'set_strong', 'h': 'h', 'v': 's'}, {'op': 'clone', 'h': 'h', 'as': 'c'}], post)
+    if 'downgrade' in which:
+        def post(sc, out, res):
+            w = sc.symvars['w']
+            bad = z3.Or(w == 0, w == MASK)
+            if out[0] == 'abort':
+                if sc.E.check(z3.Not(bad)):
+                    _viol(res, sc, prop, 'lemma-downgrade-abort', 'Rc::downgrade aborts for a weak counter outside {0, MAX}', z3.Not(bad))
+            elif out[0] == 'ok':
+                if sc.E.check(bad):
+                    _viol(res, sc, prop, 'lemma-downgrade-sentinel', 'Rc::downgrade succeeds at a sentinel weak counter', bad)
+                if sc.E.check(bv(sc.weakc(0)) != w + 1):
+                    _viol(res, sc, prop, 'lemma-downgrade-adds-one', 'Rc::downgrade does not add exactly one to the weak counter', bv(sc.weakc(0)) != w + 1)
+        mk('downgrade', [{'op': 'new', 'obj': 0, 'as': 'h'}, {'op': 'set_weak', 'h': 'h', 'v': 'w'}, {'op': 'downgrade', 'h': 'h', 'as': 'x'}], post)
+    if 'weakdrop' in which:
+        def post(sc, out, res):
+            w = sc.symvars['w']
+            pre = z3.UGE(w, 3)          # implicit weak + at least two Weak handles
+            if out[0] == 'ok':
+                if sc.E.check(z3.And(pre, bv(sc.weakc(0)) != w - 1)):
+                    _viol(res, sc, prop, 'lemma-weak-drop', 'dropping a non-last Weak does not just decrement the weak counter')
+                if sc.E.check(pre) and (not sc.rcbox(0).live or sc.objs[0].destroyed):
+                    _viol(res, sc, prop, 'lemma-weak-drop-effect', 'dropping a non-last Weak released the block or destroyed the value')
+            else:
+                if sc.E.check(pre):
+                    _viol(res, sc, prop, 'lemma-weak-drop-outcome', 'dropping a non-last Weak ended in %s' % out[0])
+        mk('weakdrop', [{'op': 'new', 'obj': 0, 'as': 'h'}, {'op': 'downgrade', 'h': 'h', 'as': 'x'}, {'op': 'set_weak', 'h': 'h', 'v': 'w'}, {'op': 'wdrop', 'w': 'x'}], post)
+    if 'rcdrop' in which:
+        def post(sc, out, res):
+            s = sc.symvars['s']
+            pre = z3.And(z3.UGE(s, 2), z3.ULE(s, MASK - 2))
+            if out[0] == 'ok':
+                if sc.E.check(z3.And(pre, bv(sc.strong(0)) != s - 1)) if sc.rcbox(0).live else sc.E.check(pre):
+                    _viol(res, sc, prop, 'lemma-rc-drop', 'dropping a non-last handle of an object without adoptions does not just decrement the strong counter')
+                if sc.E.check(pre) and sc.objs[0].destroyed:
+                    _viol(res, sc, prop, 'lemma-rc-drop-effect', 'dropping a non-last handle destroyed the value')
+            elif sc.E.check(pre):
+                _viol(res, sc, prop, 'lemma-rc-drop-outcome', 'dropping a non-last handle ended in %s' % out[0])
+        mk('rcdrop', [{'op': 'new', 'obj': 0, 'as': 'h'}, {'op': 'set_strong', 'h': 'h', 'v': 's'}, {'op': 'drop', 'h': 'h'}], post)
+    return items
+
+
+# ------------------------------------------------------------------ C05
+def weak_graph_items(prop, tier, seed, oracles, opts=None, end_all=False, dtor_upgrades=True):
+    items = []
+
+    def add(n, edges, name, layouts, weak_edges):
+        base = F.build_ops(n, edges, extras=not end_all, wextras=True, weak_edges=weak_edges)
+        keep = []
+        if dtor_upgrades:
+            # every destructor upgrades / inspects every Weak its value holds
+            cnt = {}
+            for (i, j) in weak_edges:
+                cnt[i] = cnt.get(i, 0) + 1
+            for i, c in cnt.items():
+                do = []
+                for k in range(c):
+                    do += [{'op': 'upgrade', 'w': '^%d' % k, 'as': 'kp_%d_%d' % (i, k)}, {'op': 'w_strong_count', 'w': '^%d' % k}, {'op': 'w_weak_count', 'w': '^%d' % k}]
+                    keep.append('kp_%d_%d' % (i, k))
+                base.append({'op': 'on_drop', 'obj': i, 'do': do})
+        for i in range(n):
+            base.append({'op': 'downgrade', 'h': H(i), 'as': 'ow%d' % i})
+        for seq in F.drop_sequences(n, n):
+            ops = list(base)
+            for (k, i) in seq:
+                ops += F.drop_ops([(k, i)])
+                for j in range(n):
+                    ops += [{'op': 'upgrade', 'w': 'ow%d' % j}, {'op': 'w_strong_count', 'w': 'ow%d' % j}, {'op': 'w_weak_count', 'w': 'ow%d' % j}]
+                # handles that destructors obtained through upgrade are released only now
+                for nm in keep:
+                    ops.append({'op': 'drop_if', 'h': nm})
+            if end_all:
+                for j in range(n):
+                    ops += [{'op': 'wdrop', 'w': 'ow%d' % j}]
+                for j in range(n):
+                    ops += [{'op': 'drop_all_wextras', 'obj': j}]
+            items.append(dict(prop=prop, name='%s weak=%s drops=%s' % (name, weak_edges, ''.join('%s%d' % s for s in seq)), script={'ops': ops},
+                              sym=True, oracles=set(oracles), opts=dict(opts or {}), layouts=layouts))
+
+    shapes = []
+    for n in (1, 2):
+        for e in F.shapes(n, max_mult=1, recorded_only=(tier == 'quick')):
+            shapes.append((n, e, F.describe(n, e)))
+    for nm, e in F.named_shapes(3).items():
+        shapes.append((3, e, nm))
+    if tier != 'quick':
+        for e in F.shapes(3, max_mult=1, max_edges=3, self_edges=False):
+            shapes.append((3, e, F.describe(3, e)))
+        for nm, e in F.named_shapes(4).items():
+            shapes.append((4, e, nm))
+    for (n, e, nm) in shapes:
+        lays = std_layouts(n, tier, seed)[:3 if tier == 'quick' else 6]
+        allw = [(i, j) for i in range(n) for j in range(n)]
+        add(n, e, nm, lays, allw)          # every value holds a Weak to every object (itself included)
+        if tier != 'quick':
+            add(n, e, nm, lays, [])
+    return items
+
+
+def items_C05(tier, seed, P):
+    return weak_graph_items('C05', tier, seed, {'C05'}, opts={'panics_ok': True}) + lemma_items('C05', ['downgrade', 'weakdrop'])
+
+
+PROPS['C05'] = dict(items=items_C05, bounds=BOUNDS_GRAPH, outside=OUTSIDE, vacuity=vac_paths(), replay_oracles=['C05'])
+
+
+def items_C04(tier, seed, P):
+    return weak_graph_items('C04', tier, seed, {'C04'}, opts={'expect_all_freed': True}, end_all=True) + lemma_items('C04', ['weakdrop'])
+
+
+PROPS['C04'] = dict(items=items_C04, bounds=BOUNDS_GRAPH, outside=OUTSIDE, vacuity=vac_paths(), replay_oracles=['C04'],
+                    assumptions=['histories end with every program handle dropped: strong extras are fixed to 0 in this family; the w_j additional Weak handles are symbolic and dropped through the weak-drop generalisation lemma'])
+
+
+# ------------------------------------------------------------------ C16
+def items_C16(tier, seed, P):
+    items = lemma_items('C16', ['clone'])
+    shapes = [(2, F.named_shapes(2)['ring2'], 'ring2'), (1, [(0, 0, True, False)], 'selfclone1')]
+    for nm, e in F.named_shapes(3).items():
+        shapes.append((3, e, nm))
+    if tier != 'quick':
+        for nm, e in F.named_shapes(4).items():
+            shapes.append((4, e, nm))
+        for e in F.shapes(2, max_mult=2, recorded_only=True):
+            shapes.append((2, e, F.describe(2, e)))
+    for (n, e, nm) in shapes:
+        outdeg = {}
+        for (i, j, r, s) in e:
+            outdeg[i] = outdeg.get(i, 0) + 1
+        for actor in range(n):
+            for k in range(outdeg.get(actor, 0)):
+                for what in ('clone', 'none'):
+                    base = F.build_ops(n, e, extras=True)
+                    if what == 'clone':
+                        base.append({'op': 'on_drop', 'obj': actor, 'do': [{'op': 'clone', 'h': '@%d' % k, 'as': 'zz'}]})
+                    for seq in F.drop_sequences(n, n)[:2 if tier == 'quick' else None]:
+                        ops = list(base) + F.drop_ops(seq)
+                        items.append(dict(prop='C16', name='%s dtor%d %s @%d drops=%s' % (nm, actor, what, k, ''.join('%s%d' % s for s in seq)),
+                                          script={'ops': ops}, sym=True, oracles={'C16'}, opts={'abort_ok': 'clone-of-dead', 'panics_ok': True},
+                                          layouts=std_layouts(n, tier, seed)[:3]))
+    return items
+
+
+def vac_C16(results, extra):
+    ab = sum(r['outcomes'].get('abort', 0) for r in results if not r['name'].startswith('lemma'))
+    if ab == 0:
+        return 'no scenario path reached a clone of a dead handle (abort)'
+    return None
+
+
+PROPS['C16'] = dict(items=items_C16, bounds={'quick': {'unit': 'inc_strong / Rc::clone over all 2^64 counter values', 'scenarios': 'ring2, self-clone, named N=3 shapes; each member destructor clones each handle it holds; 2 drop orders; 3 layouts'},
+                                             'thorough': {'unit': 'as quick', 'scenarios': 'plus named N=4 shapes, N=2 multiplicity 2, all drop orders'}},
+                    outside=OUTSIDE, vacuity=vac_C16, replay_oracles=['C16'])
